@@ -164,7 +164,8 @@ impl<'a, L> Engine<'a, L> {
     fn mark_list_node(&mut self, inode: usize) {
         let (g_id, s_id) = &self.gs_id[inode];
         debug_assert!(s_id.starts_with("_:"), "{}", s_id);
-        if let Some((iparent, pp)) = &self.unique_parent[s_id] {
+        // NB: a node that is never used as an object has no entry in unique_parent
+        if let Some(Some((iparent, pp))) = self.unique_parent.get(s_id) {
             if self.options.processing_mode() == JsonLd1_0 && pp.as_ref() == RDF_FIRST {
                 return;
             }
